@@ -28,43 +28,94 @@ def nat1 (c : CM) (s : String) (f : Nat → Op) : CM × List String :=
   | none => (c, ["bad-op"])
 
 
-/-! ### composed engine (`Mhd.ConnRead`): `crinit <pool_size> <increment> <level>`, `crfeed <hex>` -/
+/-! ### composed engine (`Mhd.ConnRead`): `crinit <pool_size> <increment> <level> [take pattern]`, `crfeed <hex>` -/
 open Mhd.ConnRead in
 def showCR (x : CR) : String :=
   let c := x.cm
   let pos := s!"rb={optS c.rb} rbs={c.rbSize} rbo={c.rbOff} pos={c.p.pos} end={c.p.end_}"
   let win := hexOfBytes (Mhd.Pool.readAt c.p.mem (c.rb.getD 0) c.rbOff)
-  -- `sync`: the buffer carried by the parser state is the arena prefix up to the end of the received data
+  -- `sync`: the buffer carried by the phase is the arena prefix up to the end of the received data
   let sync (buf : Mhd.Req.Bytes) : String :=
     if (c.p.mem.take buf.size) == buf.toList && buf.size == c.rb.getD 0 + c.rbOff then "1" else "0"
   match x.phase with
   | .reqLine s => s!"ph=line {pos} ne=0 sync={sync s.buf} win={win}"
   | .headers s _ => s!"ph=hdrs {pos} ne={s.elems.length} sync={sync s.buf} win={win}"
-  | .headersDone h => s!"ph=done {pos} ne={h.elems.length} sync={sync h.buf} win={win}"
+  | .headersDone h _ => s!"ph=done {pos} ne={h.elems.length} sync={sync h.buf} win={win}"
+  | .body b =>
+    let rem := if b.chunked then "x" else toString b.remaining
+    s!"ph=body {pos} ne=0 sync={sync b.buf} win={win} rem={rem} cur={b.cur} off={b.off} ev={if b.evRead then 1 else 0}"
+  | .footers s _ => s!"ph=foot {pos} ne=0 sync={sync s.buf} win={win}"
+  | .reqDone buf _ _ => s!"ph=full {pos} ne=0 sync={sync buf} win={win}"
   | .error (.reply code) => s!"ph=err code={code}"
   | .error .noSpace => "ph=err code=ns"
   | .error .closed => "ph=err code=0"
   | .fault f => s!"ph=fault {repr f}"
   | .refused n => s!"ph=refused {n}"
 
+/-- the fields of the request as C03's framing decision wants them -/
+def fieldsOf (buf : Mhd.Req.Bytes) (elems : List Mhd.Req.Elem) : List Mhd.Framing.Field :=
+  elems.filterMap fun e =>
+    if e.kind == Mhd.Gen.Http.kindHeader then
+      let sl (x : Mhd.Req.Slice) : List UInt8 := (buf.extract x.off (x.off + x.len)).toList
+      some ⟨sl e.key, (e.value.map sl).getD []⟩
+    else none
+
+/-- `MHD_IS_HTTP_VER_1_1_COMPAT` on the version string `HTTP/1.x` -/
+def http11Of (buf : Mhd.Req.Bytes) (version : Nat) : Bool :=
+  buf.getD (version + 5) 0 == 49 && buf.getD (version + 7) 0 != 48
+
+def cookieName : List UInt8 := [67, 111, 111, 107, 105, 101]
+
+/-- the decisions of `parse_connection_headers` (C03: `decideBody`) and `keepalive_possible`, the
+    take pattern of the scripted access handler -/
+def mkCfg (lvl : Int) (pat : List Nat) : Mhd.ConnRead.Cfg :=
+  { frame := fun buf rq =>
+      let fs := fieldsOf buf rq.elems
+      if (Mhd.Framing.lookup fs cookieName).isSome then .stop
+      else match Mhd.Framing.decideBody lvl (http11Of buf rq.version) fs with
+        | .none => .none
+        | .len n => .len n
+        | .chunked _ => .chunked
+        | .reject st => .reject st,
+    keepAlive := fun buf rq =>
+      let fs := fieldsOf buf rq.elems
+      let h11 := http11Of buf rq.version
+      let mustClose := match Mhd.Framing.decideBody lvl h11 fs with
+        | .chunked mc => mc
+        | _ => false
+      if mustClose then false
+      else if Mhd.Framing.lookupToken fs Mhd.Gen.Framing.hdrConnection Mhd.Gen.Framing.tokClose then false
+      else if !h11 then Mhd.Framing.lookupToken fs Mhd.Gen.Framing.hdrConnection Mhd.Gen.Framing.tokKeepAlive
+      else true,
+    take := fun k _ => if pat.isEmpty then 1000000000 else pat.getD (k % pat.length) 0 }
+
 structure DS where
   cm : CM
   cr : Mhd.ConnRead.CR
+  pat : List Nat
 
-def stepCR (x : Mhd.ConnRead.CR) (ws : List String) : Option (Mhd.ConnRead.CR × List String) :=
-  match ws with
-  | ["crinit", ps, inc, lvl] =>
+def parsePat (s : String) : Option (List Nat) :=
+  (s.splitOn ",").mapM (·.toNat?)
+
+def stepCR (x : Mhd.ConnRead.CR) (pat : List Nat) (ws : List String) : Option (Mhd.ConnRead.CR × List Nat × List String) :=
+  let ini (ps inc lvl : String) (pt : List Nat) :=
     match ps.toNat?, inc.toNat?, lvl.toInt? with
     | some p, some i, some l =>
       if 64 ≤ p ∧ p < 2 ^ 40 ∧ i < 2 ^ 40 ∧ -8 ≤ l ∧ l ≤ 8 then
         let x0 := Mhd.ConnRead.init (createSize p) p i l
-        some (x0, [s!"ok {showCR x0}"])
-      else some (x, ["bad-op"])
-    | _, _, _ => some (x, ["bad-op"])
+        some (x0, pt, [s!"ok {showCR x0}"])
+      else some (x, pat, ["bad-op"])
+    | _, _, _ => some (x, pat, ["bad-op"])
+  match ws with
+  | ["crinit", ps, inc, lvl] => ini ps inc lvl []
+  | ["crinit", ps, inc, lvl, pt] =>
+    match parsePat pt with
+    | some l => ini ps inc lvl l
+    | none => some (x, pat, ["bad-op"])
   | ["crfeed", hex] =>
     match bytesOfHex hex with
-    | some bs => let x1 := Mhd.ConnRead.feed x bs; some (x1, [showCR x1])
-    | none => some (x, ["bad-op"])
+    | some bs => let x1 := Mhd.ConnRead.feed (mkCfg x.lvl pat) x bs; some (x1, pat, [showCR x1])
+    | none => some (x, pat, ["bad-op"])
   | _ => none
 
 def stepLineCM (c : CM) (ws : List String) : CM × List String :=
@@ -82,6 +133,7 @@ def stepLineCM (c : CM) (ws : List String) : CM × List String :=
   | ["recv", k] => nat1 c k .recv
   | ["consume", k] => nat1 c k .consume
   | ["shiftback", k] => nat1 c k .shiftBack
+  | ["bodydrop", k] => nat1 c k .bodyDrop
   | ["alloc", k] => nat1 c k .alloc
   | ["shrinkread"] => doOp c .shrinkRead
   | ["maxwrite"] => doOp c .maxWrite
@@ -103,8 +155,8 @@ def stepLineCM (c : CM) (ws : List String) : CM × List String :=
   | _ => (c, ["bad-op"])
 
 def stepLine (d : DS) (ws : List String) : DS × List String :=
-  match stepCR d.cr ws with
-  | some (x, out) => ({ d with cr := x }, out)
+  match stepCR d.cr d.pat ws with
+  | some (x, pt, out) => ({ d with cr := x, pat := pt }, out)
   | none => let (c, out) := stepLineCM d.cm ws; ({ d with cm := c }, out)
 
-def main : IO Unit := runEngine ({ cm := init 64 64 16, cr := Mhd.ConnRead.init 64 64 16 0 } : DS) stepLine
+def main : IO Unit := runEngine ({ cm := init 64 64 16, cr := Mhd.ConnRead.init 64 64 16 0, pat := [] } : DS) stepLine
